@@ -142,12 +142,12 @@ func execPair(c PairCase) ev.Verdict {
 
 func TestC07(t *testing.T) {
 	opts := starval.GenOpts{MaxDepth: 4, BigProb: 3, Hosts: true, Refs: true, BigStrLen: true}
-	ev.Explore(run, t, "roundtrip", run.N(12000, 60000), func(rt *rapid.T) Case {
+	ev.Explore(run, t, "roundtrip", run.N(12000, 150000), func(rt *rapid.T) Case {
 		return Case{V: starval.Gen(rt, opts)}
 	}, execRoundTrip)
 
 	popts := starval.GenOpts{MaxDepth: 3, BigProb: 1, Hosts: true, Refs: false, BigStrLen: false}
-	ev.Explore(run, t, "pair", run.N(5000, 30000), func(rt *rapid.T) PairCase {
+	ev.Explore(run, t, "pair", run.N(5000, 60000), func(rt *rapid.T) PairCase {
 		v := starval.Gen(rt, popts)
 		return PairCase{V: v, Leaf: rapid.IntRange(0, 1000).Draw(rt, "leaf"), New: starval.GenHashable(rt, 2, popts)}
 	}, execPair)
